@@ -59,6 +59,28 @@ func init() {
 					top.Kust["sortOptions"] = Obj{"order": "fifo"}
 				}
 			}
+			if r.Intn(4) == 0 {
+				// inputs that already carry bookkeeping annotations (the output of an earlier build with buildMetadata,
+				// or of another kio tool, fed back in): without buildMetadata none of them may survive
+				for _, g := range t.Res {
+					if g.Gen || r.Intn(3) != 0 {
+						continue
+					}
+					md, _ := g.Obj["metadata"].(Obj)
+					an, _ := md["annotations"].(Obj)
+					if an == nil {
+						continue
+					}
+					for _, kv := range [][2]string{{"config.kubernetes.io/origin", "path: old/res.yaml\n"},
+						{"alpha.config.kubernetes.io/transformations", "- configuredIn: old/kustomization.yaml\n  configuredBy:\n    apiVersion: builtin\n    kind: PrefixTransformer\n"},
+						{"config.kubernetes.io/path", "old/res.yaml"}, {"config.kubernetes.io/index", "0"},
+						{"internal.config.kubernetes.io/path", "old/res.yaml"}, {"internal.config.kubernetes.io/index", "0"}} {
+						if r.Intn(2) == 0 {
+							an[kv[0]] = kv[1]
+						}
+					}
+				}
+			}
 			fs := filesys.MakeFsInMemory()
 			if err := t.Write(fs, "/w"); err != nil {
 				panic(err)
